@@ -69,6 +69,9 @@ func (cr *crun) newInst(name string, cfg *Cfg) {
 			r.Get("/x", &H{kind: "route", id: r.Name() + ":/x"})
 			r.Get("/{rest}", &H{kind: "route", id: r.Name() + ":/{rest}"})
 		}
+		// router gc for /v2/...: only /x is registered, every other path is answered 404 AFTER its matcher captured a parameter
+		gc := ci.g.New(name+"c", mux.NewPathVersion("ver", "v2"))
+		gc.Get("/x", &H{kind: "route", id: gc.Name() + ":/x"})
 	} else {
 		c := *cfg
 		c.Name = name
